@@ -36,8 +36,8 @@ enum Dl {
 impl Deadline for Dl {
     fn into_time(self, now: MonotonicTime) -> MonotonicTime {
         match self {
-            Dl::Abs(t) => base() + Duration::from_nanos(t),
-            Dl::Rel(d) => now + Duration::from_nanos(d),
+            Dl::Abs(t) => base() + du(t),
+            Dl::Rel(d) => now + du(d),
         }
     }
 }
@@ -72,8 +72,24 @@ static BASE_SECS: std::sync::atomic::AtomicI64 = std::sync::atomic::AtomicI64::n
 fn base() -> MonotonicTime {
     MonotonicTime::new(BASE_SECS.load(std::sync::atomic::Ordering::SeqCst), 0).unwrap()
 }
+/// Length of one unit of the harness's time axis in nanoseconds: 1, or (`unit big`) a quarter of a second plus 7 ns, so
+/// that consecutive times of a case differ in their seconds *and* in their sub-second parts.
+static UNIT_NS: std::sync::atomic::AtomicU64 = std::sync::atomic::AtomicU64::new(1);
+fn du(x: u64) -> Duration {
+    Duration::from_nanos(x * UNIT_NS.load(std::sync::atomic::Ordering::SeqCst))
+}
+/// a duration in units; a duration that is not a whole number of units (only a defect produces one) is made visible
+fn un(d: Duration) -> u64 {
+    let u = UNIT_NS.load(std::sync::atomic::Ordering::SeqCst) as u128;
+    let n = d.as_nanos();
+    if n % u == 0 {
+        (n / u) as u64
+    } else {
+        (n / u) as u64 + 500_000_000_000 + (n % u) as u64
+    }
+}
 fn ns(t: MonotonicTime) -> u64 {
-    t.duration_since(base()).as_nanos() as u64
+    un(t.duration_since(base()))
 }
 
 #[derive(Clone)]
@@ -154,7 +170,7 @@ impl M {
                     self.sh.log.lock().unwrap().push(Rec::Cancelled { key: k, model: Some(self.idx) });
                 }
                 HLine::Sched { dl, kind, period, aid, key } => {
-                    let p = Duration::from_nanos(period);
+                    let p = du(period);
                     let t = ns(dl.into_time(cx.time()));
                     let accepted = match kind.as_str() {
                         "once" => cx.schedule_event(dl, M::inp, aid).is_ok(),
@@ -230,7 +246,7 @@ impl Clock for ScriptClock {
             }
         }
         match self.lags.get(&n) {
-            Some(l) => SyncStatus::OutOfSync(Duration::from_nanos(*l)),
+            Some(l) => SyncStatus::OutOfSync(du(*l)),
             None => SyncStatus::Synchronized,
         }
     }
@@ -253,7 +269,7 @@ fn do_sched<D: Deadline>(
     key: u64,
     sh: &Shared,
 ) -> &'static str {
-    let p = Duration::from_nanos(period);
+    let p = du(period);
     match kind {
         "once" => s.schedule_event(dl, M::inp, aid, addr).map(|_| "ok").unwrap_or_else(sched_err),
         "keyed" => match s.schedule_keyed_event(dl, M::inp, aid, addr) {
@@ -278,7 +294,7 @@ fn exec_err(e: &ExecutionError) -> String {
     match e {
         ExecutionError::Terminated => "terminated".into(),
         ExecutionError::InvalidDeadline(_) => "invalid-deadline".into(),
-        ExecutionError::OutOfSync(l) => format!("out-of-sync {}", l.as_nanos()),
+        ExecutionError::OutOfSync(l) => format!("out-of-sync {}", un(*l)),
         ExecutionError::Timeout => "timeout".into(),
         ExecutionError::Deadlock(_) => "deadlock".into(),
         ExecutionError::MessageLoss(n) => format!("message-loss {n}"),
@@ -457,6 +473,7 @@ fn run_case(lines: Vec<String>, hints: Arc<Mutex<Vec<String>>>, resp: Arc<Mutex<
         let r: String = match w.as_slice() {
             ["case", "sched", n, "tol", tl, "t0", t, "exec", ex, "cap", cp] => {
                 BASE_SECS.store(0, std::sync::atomic::Ordering::SeqCst);
+                UNIT_NS.store(1, std::sync::atomic::Ordering::SeqCst);
                 cap = cp.parse().unwrap();
                 tags.lock().unwrap().push(format!("mailbox-cap.{cp}"));
                 nmodels = n.parse().unwrap();
@@ -466,6 +483,13 @@ fn run_case(lines: Vec<String>, hints: Arc<Mutex<Vec<String>>>, resp: Arc<Mutex<
                 tags.lock().unwrap().push(format!("exec.{ex}"));
                 if tol.is_some() {
                     tags.lock().unwrap().push("tolerance".into());
+                }
+                "ok".into()
+            }
+            ["unit", which] => {
+                if *which == "big" {
+                    UNIT_NS.store(250_000_007, std::sync::atomic::Ordering::SeqCst);
+                    tags.lock().unwrap().push("times-cross-second-boundaries".into());
                 }
                 "ok".into()
             }
@@ -549,9 +573,9 @@ fn run_case(lines: Vec<String>, hints: Arc<Mutex<Vec<String>>>, resp: Arc<Mutex<
                 let clock = ScriptClock { sh: sh.clone(), n: 0, lags: lags.clone(), exts: std::mem::take(&mut exts), handle: handle.clone() };
                 si = si.set_clock(clock);
                 if let Some(t) = tol {
-                    si = si.set_clock_tolerance(Duration::from_nanos(t));
+                    si = si.set_clock_tolerance(du(t));
                 }
-                match si.init(base() + Duration::from_nanos(t0)) {
+                match si.init(base() + du(t0)) {
                     Ok((sim, sched)) => {
                         *handle.lock().unwrap() = Some((sched.clone(), addrs.clone()));
                         let now = ns(sim.time());
@@ -650,7 +674,7 @@ fn run_case(lines: Vec<String>, hints: Arc<Mutex<Vec<String>>>, resp: Arc<Mutex<
                 let b = bench.as_mut().unwrap();
                 let aid: u64 = a.parse().unwrap();
                 let key: u64 = k.parse().unwrap();
-                let period = Duration::from_nanos(p.parse().unwrap());
+                let period = du(p.parse().unwrap());
                 drv.insert(aid);
                 let d = parse_dl(dk, dl);
                 let src = b.srcs.get_mut(&sid.parse().unwrap());
@@ -683,12 +707,12 @@ fn run_case(lines: Vec<String>, hints: Arc<Mutex<Vec<String>>>, resp: Arc<Mutex<
                             mon.hit("C08", format!("`{l}` at time {now} returned `{r}`, the statement requires `{expect}`"));
                         }
                         if r == "ok" {
-                            mon.note_sched(aid, t, 0, if periodic { period.as_nanos() as u64 } else { 0 });
+                            mon.note_sched(aid, t, 0, if periodic { un(period) } else { 0 });
                             if *kind == "keyed" || *kind == "kper" {
                                 mon.key_of_aid.insert(aid, key);
                             }
                             if periodic {
-                                mon.src_periodic.insert(aid, (t, period.as_nanos() as u64));
+                                mon.src_periodic.insert(aid, (t, un(period)));
                             }
                         }
                         r.to_string()
@@ -712,8 +736,8 @@ fn run_case(lines: Vec<String>, hints: Arc<Mutex<Vec<String>>>, resp: Arc<Mutex<
                     ["until", dk, t] => {
                         let d = parse_dl(dk, t);
                         match d {
-                            Dl::Abs(t) => b.sim.step_until(base() + Duration::from_nanos(t)),
-                            Dl::Rel(t) => b.sim.step_until(Duration::from_nanos(t)),
+                            Dl::Abs(t) => b.sim.step_until(base() + du(t)),
+                            Dl::Rel(t) => b.sim.step_until(du(t)),
                         }
                     }
                     ["proc", m, a] => {
@@ -831,7 +855,7 @@ fn run_case(lines: Vec<String>, hints: Arc<Mutex<Vec<String>>>, resp: Arc<Mutex<
                     let n0 = sh.log.lock().unwrap()[..log_start].iter().filter(|r| matches!(r, Rec::Sync(_))).count();
                     let k = recs.iter().filter(|r| matches!(r, Rec::Sync(_))).count();
                     let reported = if k > 0 { lags.get(&(n0 + k - 1)).copied() } else { None };
-                    let got = got.as_nanos() as u64;
+                    let got = un(*got);
                     match (tol, reported) {
                         (Some(t), Some(lag)) if lag > t && lag == got => {}
                         (Some(t), Some(lag)) if lag <= t => mon.hit(
@@ -1220,6 +1244,11 @@ fn gen_case(rng: &mut Rng, tier: Tier, focus: &str) -> Case {
     // one case in three (one in two under C18 / C01 / C15) runs entirely before the epoch (negative TAI seconds)
     if rng.chance(1, if focus == "C18" || focus == "C01" || focus == "C15" { 2 } else { 3 }) {
         lines.push("base neg".into());
+    }
+    // one case in three measures time in units of a quarter of a second plus 7 ns (the seconds and the sub-second part of
+    // the simulation time both change from one deadline to the next)
+    if rng.chance(1, 3) {
+        lines.push("unit big".into());
     }
     // scripted lags: rare, and mostly below the tolerance
     let mut clock = vec![];
